@@ -8,7 +8,9 @@ def machine : Machine where
   Cfg := Cfg
   init := fun cfg progs =>
     match nats? (words cfg) with
-    | some [_nw, budget] => if budget ≥ 1 && wellFormed progs then some (Model.C01.init budget progs) else none
+    | some [_nw, budget] =>
+      let progs := progs.map (·.map parseOp)
+      if budget ≥ 1 && wellFormed progs then some (Model.C01.init budget progs) else none
     | _ => none
   nthreads := fun c => c.threads.length
   done := Model.C01.done
